@@ -6,8 +6,42 @@ import (
 	"strings"
 )
 
-// Str prints a Coq string literal. Only printable ASCII is allowed (generators are restricted to it).
+// Interning: string literals are expensive for coqc to elaborate (one constructor per character),
+// and the same few strings occur thousands of times in a cases file. When interning is on, Str
+// returns an identifier and Table() prints one Definition per distinct string.
+var (
+	interning bool
+	internIDs = map[string]string{}
+	internSeq []string
+)
+
+func StartInterning() { interning = true; internIDs = map[string]string{}; internSeq = nil }
+
+// Table returns the definitions of all interned strings.
+func Table() string {
+	var b strings.Builder
+	for _, s := range internSeq {
+		fmt.Fprintf(&b, "Definition %s : string := %s.\n", internIDs[s], lit(s))
+	}
+	return b.String()
+}
+
+// Str prints a Coq string (a literal, or the name of an interned literal).
 func Str(s string) string {
+	if !interning || s == "" {
+		return lit(s)
+	}
+	if id, ok := internIDs[s]; ok {
+		return id
+	}
+	id := fmt.Sprintf("s'%d", len(internSeq))
+	internIDs[s] = id
+	internSeq = append(internSeq, s)
+	return id
+}
+
+// lit prints a Coq string literal. Only printable ASCII is allowed (generators are restricted to it).
+func lit(s string) string {
 	var b strings.Builder
 	b.WriteByte('"')
 	for i := 0; i < len(s); i++ {
